@@ -1,13 +1,14 @@
 ------------------------ MODULE DelayedDestructorTrace ------------------------
 EXTENDS DelayedDestructor, TraceBase
 VARIABLE l
-TInit == l = 1 /\ InitWith(<<>>, [cb |-> TRUE, reenter |-> 0, locked |-> TRUE]) /\ TLCSet(1, 0)
+TInit == l = 1 /\ InitWith(<<>>, [cb |-> TRUE, reenter |-> 0, locked |-> TRUE, cbthrow |-> FALSE]) /\ TLCSet(1, 0)
 Skip == LifeKinds \cup {"blocked", "ddgone", "starved", "soloyield"}
 TNext ==
     /\ l <= Len(Tr)
     /\ l' = l + 1
     /\ LET e == Tr[l] IN
-       \/ e.k = "reset" /\ ResetTo(e.prog, [cb |-> e.p.cb = 1, reenter |-> e.p.reenter, locked |-> e.p.locked = 1])
+       \/ e.k = "reset" /\ ResetTo(e.prog, [cb |-> e.p.cb = 1, reenter |-> e.p.reenter, locked |-> e.p.locked = 1,
+                                                 cbthrow |-> ("cbthrow" \in DOMAIN e.p /\ e.p.cbthrow # 0 /\ e.p.cb = 1)])
        \/ (e.k \in Skip \/ (e.t = 0 /\ e.k # "reset")) /\ UNCHANGED vars
        \/ e.k \in EndKinds /\ e.t # 0 /\ UNCHANGED vars
        \/ e.t # 0 /\ e.k \notin (Skip \cup EndKinds \cup {"reset"}) /\ Next /\ Matches(ev', e)
